@@ -180,7 +180,7 @@ def fuse_charge(mod, ts, ss):
     return canon(mod, tuple(sum(s * t[c] for t, s in zip(ts, ss)) for c in range(len(mod))))
 
 
-def build_tensor(cfg, sym, s, legs, n, rng, density=0.8, dtype='float64', isdiag=False, target_sym=None):
+def build_tensor(cfg, sym, s, legs, n, rng, density=0.8, dtype='float64', isdiag=False, target_sym=None, blocks=None):
     """ legs: list of leg spaces [(t, D), ...];  values: small non-zero (Gaussian) integers.
     target_sym: the tensor lives in another group that admits the same blocks (C16: same layout, different symmetry) """
     import yastn
@@ -192,6 +192,9 @@ def build_tensor(cfg, sym, s, legs, n, rng, density=0.8, dtype='float64', isdiag
     if isdiag:
         allowed = [c for c in allowed if c[0][0] == c[1][0]]
     chosen = [c for c in allowed if rng.random() < density]
+    if blocks is not None:      # explicit list of stored blocks (per-leg charges)
+        want = {tuple(tuple(t) for t in b) for b in blocks}
+        chosen = [c for c in allowed if tuple(tuple(x[0]) for x in c) in want]
     for c in chosen:
         Ds = tuple(x[1] for x in c)
         ts = tuple(itertools.chain.from_iterable(x[0] for x in c))
@@ -262,7 +265,7 @@ def gen_inits(sym, rng, nreg=3, maxrank=4, complex_p=0.3, diag_p=0.1, want_diag=
 
 
 def build_init(cfg, sym, st):
-    return build_tensor(cfg, sym, st['s'], st['legs'], st['n'], random.Random(st['dataseed']), density=st['density'], dtype=st['dtype'], isdiag=st['isdiag'])
+    return build_tensor(cfg, sym, st['s'], st['legs'], st['n'], random.Random(st['dataseed']), density=st['density'], dtype=st['dtype'], isdiag=st['isdiag'], blocks=st.get('blocks'))
 
 
 GINTS = [[1, 0], [-1, 0], [2, 0], [-2, 0], [3, 0], [0, 1], [0, -1], [0, 2], [1, 1], [0, 0]]
@@ -478,6 +481,8 @@ def apply_op(op, regs):
     from yastn import YastnError
     a = regs[op['a']]
     k = op['op']
+    if a is None or any(regs[op[x]] is None for x in ('b', 'c') if x in op):
+        return 'operand missing (an earlier step failed in this execution)', None
     try:
         if k == 'lincomb':
             x, y = complex(*op['amp'][0]), complex(*op['amp'][1])
@@ -564,7 +569,12 @@ def event_of(op, out, res, sym, nreg_map):
         e['tnone'] = bool(op.get('tnone'))
     e['out'] = out if out != 'num' else 'ok'
     if out == 'ok':
-        e['obs'] = alpha(res, sym)
+        try:
+            e['obs'] = alpha(res, sym)
+        except Machinery:
+            raise
+        except Exception as ex:     # the result cannot even be read through the public API (ill-formed tensor): a verdict of the trace spec, not a harness failure
+            e['out'] = 'unreadable result (%s)' % type(ex).__name__
     if out == 'num':
         e['val'] = _gint(res)
     return e
@@ -587,11 +597,13 @@ def generate(sym, ferm, seed, nsteps, weights, knob=None, want_diag=False):
             pending.append(op.pop('then'))
         out, res = apply_op(op, regs)
         e = event_of(op, out, res, sym, None)
-        if out == 'ok' and len(e['obs']['ent']) > 160:
+        if out == 'ok' and e['out'] == 'ok' and len(e['obs']['ent']) > 160:
             continue      # keep tensors small enough for TLC (the op is simply not part of the program)
+        op['reg'] = bool(out == 'ok' and e['out'] == 'ok')     # whether this op defines a register (kept aligned across executions under other configurations)
+        e['reg'] = op['reg']
         ops.append(op)
         ev.append(e)
-        if out == 'ok':
+        if out == 'ok' and e['out'] == 'ok':
             regs.append(res)
             obs.append(e['obs'])
     prog = Prog(sym, ferm, inits, ops, seed)
@@ -612,12 +624,14 @@ def execute(prog, knob, placements=None, rng=None):
     for op in prog.ops:
         if placements and rng is not None:
             for key in ('a', 'b'):
-                if key in op and rng.random() < placements:
+                if key in op and rng.random() < placements and regs[op[key]] is not None:
                     i = op[key]
                     regs = list(regs)
                     regs[i] = regs[i].consume_transpose() if rng.random() < 0.6 else regs[i].copy()
         out, res = apply_op(op, regs)
         ev.append(event_of(op, out, res, prog.sym, None))
-        if out == 'ok':
-            regs.append(res)
+        if op.get('reg', out == 'ok'):
+            regs.append(res if out == 'ok' else None)      # a register the generating execution defined: keep the numbering even if this execution failed here
+        elif out == 'ok' and 'obs' in ev[-1]:
+            ev[-1]['reg'] = False                          # computed here although the generating execution was rejected: validated, compared, but not a register of the program
     return trace_dict(prog, knob, ev)
